@@ -9,8 +9,10 @@ ops
   setCoords m C*m | setWeights V | setCharges m V*m
   writeCoords i C | writeCharges i V | writeAtom i a V | writeCharge i a x
   read i | slice a b c ('-' = omitted) | dump i | serialise | iterNew | iterNext k | loop | nestedLoop
+  ctorCopyKw | swap k (the k-th other live ensemble becomes the current one) | iterNextKeep k | loopKeep
+  readKept j | writeKept j C | dumpKept j   (conformer objects kept from iterations, used later)
 response: per op  <out>@<nA>,<len coords>,<len charges>,<len weights>,<rect 0|1>  joined by ';', then
-  ';state ' + the three arrays
+  ';state ' + the three arrays + ' || others n' + (' || state …' of every other live ensemble)
 outs: ok | err | view C.. V.. | idxs i,j,.. | handle k | yield i | stop | pairs i:j,.. | blob m (C V)*m V
 -/
 import Molli.Util.Basic
@@ -136,6 +138,13 @@ def parseOp (s : String) : Option Op :=
   | "iterNext" :: ts => do let (k, t1) ← pNat ts; if t1.isEmpty then pure (.iterNext k) else none
   | ["loop"] => some .loop
   | ["nestedLoop"] => some .nestedLoop
+  | ["ctorCopyKw"] => some .ctorCopyKw
+  | ["loopKeep"] => some .loopKeep
+  | "swap" :: ts => do let (k, t1) ← pNat ts; if t1.isEmpty then pure (.swap k) else none
+  | "iterNextKeep" :: ts => do let (k, t1) ← pNat ts; if t1.isEmpty then pure (.iterNextKeep k) else none
+  | "readKept" :: ts => do let (j, t1) ← pNat ts; if t1.isEmpty then pure (.readKept j) else none
+  | "dumpKept" :: ts => do let (j, t1) ← pNat ts; if t1.isEmpty then pure (.dumpKept j) else none
+  | "writeKept" :: ts => do let (j, t1) ← pNat ts; let (c, t2) ← pConf t1; if t2.isEmpty then pure (.writeKept j c) else none
   | _ => none
 
 /-! ### printing -/
@@ -179,7 +188,8 @@ def handle (payload : String) : String :=
       let (w, outs) := ops.foldl (fun (acc : World × List String) o =>
           let (w', out) := step v acc.1 o
           (w', (showOut out ++ "@" ++ showShape w'.ens) :: acc.2)) (initWorld, [])
-      ";".intercalate (outs.reverse ++ [showState w.ens])
+      ";".intercalate (outs.reverse ++ [showState w.ens ++ " || others " ++ toString w.others.length ++
+        String.join (w.others.map (fun e => " || " ++ showState e))])
     | _, _ => "err:bad-request"
 
 end Molli.Driver.C14
